@@ -96,7 +96,7 @@ def run(rep, tier, rng):
                 if not np.array_equal(v, v_same):
                     rep.violation(f"UnitaryVectors({d}, {al}) is not reproducible from an equal random state", {"case": {"alg": al, "d": d, "seed": seed},
                                   "python": "assert False, 'generator ignores the random state it was given'\n"})
-                if d > 1 and np.array_equal(v, v_other):
+                if d > 4 and np.array_equal(v, v_other):      # small d: only finitely many unitary vectors (signs), collisions are expected
                     rep.violation(f"UnitaryVectors({d}, {al}): a different seed gave the same vector", {"case": {"alg": al, "d": d, "seed": seed}})
                 add(f"rel_unitary {al} {algs.enc_vec(v)} {REL}", {"op": "unitary-generator", "alg": al, "d": d, "v": v.tolist()}, ("unitary", al, d, seed, j))
             for props in ([], ["unitary"], ["positive"], ["unitary", "positive"], ["bogus"], ["unitary", "bogus"], ["positive", "bogus"],
